@@ -461,6 +461,10 @@ def ambiguity_worlds(thorough):
 EXT_ROOT = None
 
 
+class Rejected(Exception):
+    """the product's loader refused the generated workflow"""
+
+
 def ext_dir(world, root):
     if not world.get('ext'):
         return os.path.join(root, 'ext')
@@ -555,8 +559,11 @@ def realise(world, root):
     kw = {}
     if inst.get('name'):
         kw['instance_name'] = inst['name']
-    exp = experiment_from_doc(doc, location, extra_files=files, name=inst['pkg'], timestamp=bool(inst.get('timestamp', True)),
-                              inputs=inputs or None, **kw)
+    try:
+        exp = experiment_from_doc(doc, location, extra_files=files, name=inst['pkg'], timestamp=bool(inst.get('timestamp', True)),
+                                  inputs=inputs or None, **kw)
+    except Exception as e:     # the loader / validator of the product refuses the workflow: the world is not judged
+        raise Rejected('%s: %s' % (type(e).__name__, ' '.join(str(e).split())[:300]))
     idir = exp.instanceDirectory
     by_name = {c['name']: c for c in world['comps']}
     for cn, outs in (world.get('outputs') or {}).items():
